@@ -1083,6 +1083,8 @@ def check_history(res, case):
             res.label("hist-kind:" + op["pat"]["kind"])
     res.evals = max(1, rp.evals)
     res.nontrivial = regs >= 3 and len(types) >= 2
+    if regs >= 32:
+        res.label("hist:large-library")
     if res.nontrivial:
         res.label("hist:nontrivial")
 
@@ -1520,12 +1522,20 @@ class C11Machine(RuleBasedStateMachine):
         self.ops.append(op)
         return True
 
-    @initialize(kind=st.sampled_from(KINDS), types=st.lists(st.sampled_from(sorted(CONVERTERS)), unique=True))
-    def start(self, kind, types):
+    @initialize(kind=st.sampled_from(KINDS), types=st.lists(st.sampled_from(sorted(CONVERTERS)), unique=True),
+                pad=st.sampled_from([0] * 5 + [31, 32, 33, 40]), padtype=st.sampled_from(STYPES))
+    def start(self, kind, types, pad, padtype):
         for name in types:
             self.emit({"op": "type", "name": name})
         if kind != "parse":
             self.emit({"op": "use", "kind": kind})
+        # a LARGE step library: some dozens of unrelated definitions of one step type are there already
+        # (what holds for three definitions holds for the fortieth)
+        self.padtype = padtype if pad else None
+        for i in range(pad):
+            word = "pad" + chr(97 + i // 26) + chr(97 + i % 26)
+            self.emit({"op": "reg", "st": padtype, "fn": i % NFUNCS,
+                       "pat": {"kind": self.model.kind, "parts": [{"l": word}, {"l": "filler"}]}})
 
     @rule(kind=st.sampled_from(KINDS))
     def use_step_matcher(self, kind):
@@ -1579,10 +1589,32 @@ class C11Machine(RuleBasedStateMachine):
             stype = data.draw(st.sampled_from([t for t in STYPES if t != d["st"]]))
             self.emit({"op": "reg", "st": stype, "fn": fn, "pat": pat})
 
+    @rule(stype=st.sampled_from(STYPES), w1=st.sampled_from(LIT_SMALL), w2=st.sampled_from(LIT_SMALL),
+          field_first=st.booleans(), fn=st.integers(0, NFUNCS - 1), quoted=st.integers(0, 3))
+    def register_crossing(self, stype, w1, w2, field_first, fn, quoted):
+        """Two definitions that overlap without either matching the other's pattern text ('{a} w2' and 'w1 {b}'),
+        in either order, then the text both match: the earlier registration is the one that binds."""
+        kind = self.model.kind
+        stype = self.padtype or stype
+        a = {"kind": kind, "parts": [{"f": "any", "n": "a"}, {"l": w2}]}
+        b = {"kind": kind, "parts": [{"l": w1}, {"f": "any", "n": "b"}]}
+        if not quoted:
+            # the first word of the pattern is a field in quotes: '"{a}" w2' binds '"w1" w2'
+            a["parts"][0]["q"] = True
+            self.emit({"op": "reg", "st": stype, "fn": fn, "pat": a})
+            self.emit({"op": "look", "st": stype if stype != "step" else "when", "text": '"%s" %s' % (w1, w2)})
+            return
+        pair = [(a, fn), (b, (fn + 1) % NFUNCS)]
+        for pat, f in (pair if field_first else reversed(pair)):
+            self.emit({"op": "reg", "st": stype, "fn": f, "pat": pat})
+        self.emit({"op": "look", "st": stype if stype != "step" else "when", "text": w1 + " " + w2})
+
     @precondition(lambda self: bool(self.model.all_defs()))
     @rule(data=st.data())
     def lookup_registered(self, data):
-        d = data.draw(st.sampled_from(self.model.all_defs()))
+        defs = self.model.all_defs()
+        own = [d for d in defs if not d["text"].lstrip("^").startswith("pad")]
+        d = data.draw(st.sampled_from(own if own and data.draw(st.integers(0, 7)) else defs))
         insts = data.draw(insts_st(d["pat"]))
         mut = data.draw(mut_st(d["pat"], exact_weight=8))
         text, _args = build_text(d["pat"], insts, mut)
@@ -1621,7 +1653,7 @@ def required_labels(tier):
                "inst:optional-absent", "inst:optional-present", "inst:card-empty",
                "look:bound", "look:unbound", "look:other-step-type", "look:specific-over-generic",
                "look:earlier-over-later", "look:generic-hit", "look:earlier-match-still-held", "reg:type-converter-replaced",
-               "reg:added", "reg:ignored", "reg:ambiguous", "hist:nontrivial",
+               "reg:added", "reg:ignored", "reg:ambiguous", "hist:nontrivial", "hist:large-library",
                "modules:default-after-switch", "modules:env-default", "modules:legacy-step_matcher-alias", "modules:sibling-import",
                "modules:cwd-1", "modules:cwd-2", "modules:cwd-3", "converr:first-candidate-refuses:another-would-match",
                "converr:KeyError", "converr:ValueError", "converr:Custom", "modules:own-matcher-class-as-default"])
